@@ -161,7 +161,11 @@ func (ru *Runner) execX(ws []string) {
 	}
 	sync := func() {
 		if !ru.S.Held() && !ru.dead {
-			ru.S.Sync()
+			// exact quiescence: queue drained, no verification goroutine alive, their
+			// notifications handled
+			if !ru.S.Quiesce() && !ru.S.LoopDead() {
+				ru.violate("hang:quiesce", "the torrent did not come to rest within the watchdog (a piece stays in the hashing state, or verifications keep being started)")
+			}
 		}
 	}
 	switch ws[1] {
@@ -250,11 +254,16 @@ func (ru *Runner) execX(ws []string) {
 		}
 	case "complete":
 		if i, ok := piece(2); ok {
-			if done, _ := ru.S.Complete(i); done {
+			sync() // not while the real code is hashing what is there
+			before := ru.S.T.Pieces.Complete(i)
+			done, _ := ru.S.Complete(i)
+			sync()
+			// the real getChunks may have found the full piece first and verified it
+			// itself (its own TorHave): what counts is that it is verified now
+			if done || (!before && !ru.dead && ru.S.T.Pieces.Complete(i)) {
 				ru.complete[i] = true
 				ru.noteVerified(int(i))
 			}
-			sync()
 		}
 	case "corrupt":
 		if i, ok := piece(2); ok {
@@ -435,7 +444,7 @@ func (ru *Runner) execX(ws []string) {
 		}
 		before := ru.S.T.Pieces.Complete(i)
 		ru.S.LastBlock(i, wrong == 1, int(k))
-		ru.S.Quiesce()
+		sync()
 		if now := ru.S.T.Pieces.Complete(i); now && !before {
 			if wrong == 1 {
 				ru.violate("verify:corrupt-accepted", fmt.Sprintf("piece %d with a wrong block passed verification", i))
